@@ -102,8 +102,8 @@ func drawCodeImage(t *rapid.T, cfg rvref.Cfg) *c21Image {
 }
 
 func TestC21(t *testing.T) {
-	col := ev.New("C21", "rapid: code images of 1-4 executable sections (adjacent or apart, file order independent of "+
-		"address order) filled with valid words of the configuration (RV64IMA in 3/4 of the cases, any of the 8 otherwise) from an independent encoder; with probability 1/3 one position "+
+	col := ev.New("C21", "rapid: code images of 1-4 executable sections (adjacent or apart, a quarter starting at an unaligned address, a third of the gaps of arbitrary byte length, file order independent of "+
+		"address order) filled with valid words of the configuration (RV64IMA in 3/4 of the cases, any of the 8 otherwise) from an independent encoder (rs1 = x0 a fifth, rs2 = x0 an eighth of the time); with probability 1/3 one position "+
 		"holds an undecodable word or the section is cut to a length that is not a multiple of 4; loaded through the ELF "+
 		"writer and the real elf.MachineCode. parser.Parse must fail iff such a position exists, else yield exactly one "+
 		"instruction per 4 bytes of every block in address order with the bytes at its address, type/name/text of the "+
